@@ -299,14 +299,37 @@ def alias_update(ns, home, mapping):
             orig = _external_original(name)
         if orig is None:
             orig = _pyins_original(name)
-        hit = False
         if orig is not None:
             for k in list(ns):
                 if ns[k] is orig and not k.startswith("__"):
                     ns[k] = stub
-                    hit = True
+            for gk, sv in _module_stub_aliases(ns, orig, stub).items():
+                ns[gk] = sv
         ns[name] = stub
     return ns
+
+
+def _module_stub_aliases(target_vars, orig_module, stub):
+    """`stub` stands for the pyins module `orig_module` (a namespace with some of its public functions): names the target
+    imported FROM that module (`from .kalman import correct as _kc`) are rebound to the stub's attribute of the same name"""
+    import types as _types
+    out = {}
+    if not isinstance(orig_module, _types.ModuleType) or isinstance(stub, _types.ModuleType):
+        return out
+    for attr in dir(stub):
+        if attr.startswith("_"):
+            continue
+        try:
+            sv = getattr(stub, attr)
+        except Exception:
+            continue
+        ov = vars(orig_module).get(attr)
+        if ov is None:
+            continue
+        for gk, gv in list(target_vars.items()):
+            if gv is ov and not gk.startswith("__"):
+                out[gk] = sv
+    return out
 
 
 class _ModProxy:
@@ -345,6 +368,9 @@ def patched(*patches):
                 if isinstance(target, _types.ModuleType) and (getattr(target, "__name__", "") or "").startswith("pyins"):
                     orig = have if have is not missing else (_external_original(k) if _external_original(k) is not None else _pyins_original(k))
                     if orig is not missing and orig is not None and orig is not v:
+                        for gk, sv in _module_stub_aliases(vars(target), orig, v).items():
+                            saved.append((target, gk, vars(target)[gk], False))
+                            setattr(target, gk, sv)
                         if have is missing and not isinstance(orig, _types.ModuleType):
                             for gk, gv in list(vars(target).items()):
                                 real = gv.__dict__["_real"] if isinstance(gv, _ModProxy) else gv
